@@ -168,7 +168,9 @@ STAGES = ("parse", "validate", "operation-selection", "variable-coercion", "reso
           # (appended) a leaf whose SERIALISED value is null although the resolved value is not (a custom scalar's serialize returning None)
           "serialized-null",
           # (appended) rejected variable values that contain characters with a meaning for message formatting (% { } \)
-          "variable-coercion-percent", "variable-coercion-braces")
+          "variable-coercion-percent", "variable-coercion-braces",
+          # (appended) numbers JSON decoders produce that the scalar cannot hold: an integer too large for a float, for a Float variable / inside a list / inside an input object
+          "variable-coercion-huge-float", "variable-coercion-huge-float-item")
 
 
 def failure_schema(msg, ext, own_path=False):
@@ -183,7 +185,7 @@ def failure_schema(msg, ext, own_path=False):
     q = ObjectType("Query", [
         Field("o", obj), Field("l", ListType(obj)), Field("bad", Int, resolver=boom), Field("nn", NonNullType(Int)),
         Field("sn", NonNullType(maybe)), Field("sl", ListType(NonNullType(maybe))), Field("sm", maybe),
-        Field("arg", Int, args=[Argument("i", Int), Argument("l", ListType(Int))]),
+        Field("arg", Int, args=[Argument("i", Int), Argument("l", ListType(Int)), Argument("f", Float), Argument("fl", ListType(Float))]),
         Field("f", Float), Field("fs", ListType(Float)), Field("a", Int), Field("s", String),
     ])
     if msg == "<mutation root>":
@@ -243,6 +245,8 @@ def _failures(stage: int, m: int, cfg: int, ext: int, ast: bool = False, own_pat
             "directive-null-mutation": ("mutation ($v: Boolean = true) { a ...F @skip(if: $v) } fragment F on Query { s }", {"v": None}, None, None),
             "serialized-null": ("{ a sn sm o { x sn sm } sl }", None, None, True),
             "variable-coercion-percent": ("query ($v: Int!, $w: [Int], $s: Boolean!) { arg(i: $v, l: $w) a @skip(if: $s) }", {"v": "10%", "w": ["%s", 1, "%d%%", "%(x)s"], "s": {"%": "%5"}}, None, None),
+            "variable-coercion-huge-float": ("query ($v: Float) { arg(f: $v) a }", {"v": 10 ** 400}, None, None),
+            "variable-coercion-huge-float-item": ("query ($v: [Float]) { arg(fl: $v) a }", {"v": [1.5, -(10 ** 400)]}, None, None),
             "variable-coercion-braces": ("query ($v: Int!, $w: [Int]) { arg(i: $v, l: $w) a }", {"v": "{0} {} {x!r} \\ \"", "w": {"{": "}"}}, None, None),
         }[ST]
         if ST == "subscription-operation" and known.c10_subscription_through_query_entry_point():
